@@ -19,10 +19,10 @@ def impl_cfg(max_segs, max_len, max_cap, rich, short, bineof):
     return cfg
 
 
-def gen_cfg(family, out, max_segs=2, max_len=2, max_cap=4, rich=False, short="yes", invs=()):
+def gen_cfg(family, out, max_segs=2, max_len=2, max_cap=4, rich=False, short="yes", invs=(), zero=False):
     cfg = ("CONSTANTS\n  Family = \"%s\"\n  MaxSegs = %d\n  MaxLen = %d\n  MaxCap = %d\n  Rich = %s\n  WithShort = \"%s\"\n"
-           "  OutFile = \"%s\"\nINIT Init\nNEXT Next\n"
-           % (family, max_segs, max_len, max_cap, "TRUE" if rich else "FALSE", short, out))
+           "  OutFile = \"%s\"\n  ZeroReads = %s\nINIT Init\nNEXT Next\n"
+           % (family, max_segs, max_len, max_cap, "TRUE" if rich else "FALSE", short, out, "TRUE" if zero else "FALSE"))
     for inv in tuple(invs) + ("PrefixOK", "Emit"):
         cfg += "INVARIANT %s\n" % inv
     cfg += "CHECK_DEADLOCK FALSE\n"
@@ -272,11 +272,11 @@ def run(ctx):
 
     # ---- MBT
     if q:
-        vec = generate(ctx, "exh", "exh", invs=("ParseAgrees", "ClassAgrees"), max_segs=2, max_len=2, max_cap=4)
+        vec = generate(ctx, "exh", "exh", invs=("ParseAgrees", "ClassAgrees"), max_segs=2, max_len=2, max_cap=4, zero=True)
         s_exh = replay_vectors(ctx, vec, "exh", 8)
-        bounds = ["<=2 segments, payload 0..2, buffers 1..4, 4 reader scripts x 2 EOF modes"]
+        bounds = ["<=2 segments, payload 0..2, buffers 1..4 and one empty buffer per sequence, 4 reader scripts x 2 EOF modes"]
     else:
-        vec = generate(ctx, "exh", "exh", invs=("ParseAgrees", "ClassAgrees"), max_segs=3, max_len=2, max_cap=4)
+        vec = generate(ctx, "exh", "exh", invs=("ParseAgrees", "ClassAgrees"), max_segs=3, max_len=2, max_cap=4, zero=True)
         s_exh = replay_vectors(ctx, vec, "exh", 24)
         vec2 = generate(ctx, "exh", "exh2", invs=("ParseAgrees",), max_segs=2, max_len=3, max_cap=4, rich=True)
         replay_vectors(ctx, vec2, "exh2", 48)
@@ -296,6 +296,15 @@ def run(ctx):
     s_hdr = replay_vectors(ctx, vec, "hdr", 64)
     if s_hdr["vectors"] != 65536 * 4 and s_hdr.get("hangs", 0) < 3:
         raise core.Broken("hdr family: %d vectors instead of 262144" % s_hdr["vectors"])
+    os.remove(vec)
+    # segments of 64 KiB and 16 MiB (every byte of the length field matters); judged by the harness's
+    # transcription of PfbReadOK only (TLC cannot read 16 MiB observations back)
+    vec = generate(ctx, "big", "big", rich=not q)
+    s_big = ctx.vh_json("replay-pfb", vec, timeout=3000)
+    if s_big["vectors"] < 20:
+        raise core.Broken("big family: %d vectors" % s_big["vectors"])
+    absorb(ctx, s_big, "vh replay-pfb (big)")
+    ctx.extra["mbt_big"] = {"vectors": s_big["vectors"], "agreed": s_big["agreed"], "classes": s_big["per_op"], "by_sig": s_big["by_sig"]}
     os.remove(vec)
     vec = generate(ctx, "sim", "sim", invs=("ParseAgreesSim",), simulate=400 if q else 10000)
     replay_vectors(ctx, vec, "sim", 1 if q else 4)
